@@ -103,14 +103,31 @@ theorem stdin_like_dashes (cmd : Col → Except Err String) :
         | error e => rfl
         | ok line => simp only [ih]
 
-/-- Empty stdin means "no colours", not an error, for the iterating commands; a `-` argument with
-empty stdin is `CouldNotReadFromStdin`. -/
-theorem empty_stdin (sub : String) (args : List String) :
+/-- Empty stdin means "no colours", not an error, for the iterating commands (for `mix`: once its
+base and fraction have been read); a `-` argument with empty stdin is `CouldNotReadFromStdin`. -/
+theorem empty_stdin (sub : String) (args : List String) (hsub : sub ≠ "mix") :
     run sub args [] [] = { lines := [], err := none } ∧
     (loopArgs (commandBody sub args) ["-"] []).err = some .couldNotReadFromStdin := by
   constructor
-  · unfold run; simp [loopStdin]
+  · unfold run; simp [loopStdin, hsub]
   · simp [loopArgs, colorFromArg, colorFromStdin]
+
+/-- `mix` with no colours and an empty stdin: nothing is printed; the run succeeds exactly when the
+base and the fraction can be read (an unparsable base or fraction is reported even then). -/
+theorem mix_empty_stdin (base fr sp : String) (b : Col) (f : Float) (hb : Ordinary base)
+    (hp : P.parseColor base.toList = some b) (hf : numberArg fr = .ok f) :
+    run "mix" [base, fr, sp] [] [] = { lines := [], err := none } ∧
+    (∀ bad, Ordinary bad → P.parseColor bad.toList = none →
+      run "mix" [bad, fr, sp] [] [] = { lines := [], err := some (.colorParse bad) }) := by
+  constructor
+  · unfold run runMix
+    simp only [if_true]
+    rw [colorFromArg_ok base b [] hb hp, hf]
+    simp [loopStdin]
+  · intro bad hbad hpb
+    unfold run runMix
+    simp only [if_true]
+    rw [colorFromArg_bad bad [] hbad hpb]
 
 /-- A reader that closes stdout early sees a prefix of the full output, and a longer-lived reader
 sees an extension of what a shorter-lived one saw. -/
@@ -135,7 +152,7 @@ theorem stdout_complete_lines (o : Outcome) :
     · rw [h]; simp
     · rw [List.getLast?_append, h]; simp
 
-/-! ### `mix`: the base given as `-` is read once -/
+/-! ### `mix`: the base is read first; given as `-` it is the first stdin line -/
 
 /-- A colour argument that is ordinary (not `-`, not `pick`) is read without touching stdin. -/
 theorem colorFromArg_ordinary (t : String) (stdin : List StdinLine) (ho : Ordinary t) :
@@ -144,62 +161,29 @@ theorem colorFromArg_ordinary (t : String) (stdin : List StdinLine) (ho : Ordina
   | some c => exact ⟨.ok c, colorFromArg_ok t c stdin ho hp, fun s => colorFromArg_ok t c s ho hp⟩
   | none => exact ⟨.error (.colorParse t), colorFromArg_bad t stdin ho hp, fun s => colorFromArg_bad t s ho hp⟩
 
-/-- Once the base colour has been read, the base argument is not looked at again. -/
-theorem loopMixArgs_cached (b1 b2 fr sp : String) (b : Col) :
-    ∀ (cs : List String) (stdin : List StdinLine),
-      loopMixArgs [b1, fr, sp] (some b) cs stdin = loopMixArgs [b2, fr, sp] (some b) cs stdin := by
-  intro cs
-  induction cs with
-  | nil => intro stdin; rfl
-  | cons a rest ih =>
-    intro stdin
-    unfold loopMixArgs
-    cases hcf : colorFromArg a stdin with
-    | mk r stdin' =>
-      cases r with
-      | error e => rfl
-      | ok c =>
-        simp only [mixBody]
-        cases hn : numberArg fr with
-        | error e => rfl
-        | ok f => simp only [ih]
-
-/-- **The base colour of `mix` given as `-` is one stdin line, read once**: with ordinary colour
-arguments, `mix - c₁ … cₙ` on a stdin whose first line is `l` behaves exactly like
-`mix <l trimmed> c₁ … cₙ` on the rest of stdin — same lines, same error, for any number of colours
-(this is what 940cd78 repaired: the base used to be read again for every colour). -/
-theorem mix_dash_base_read_once (fr sp l : String) (cs : List String) (rest : List StdinLine)
-    (hcs : ∀ a ∈ cs, Ordinary a) (hl : Ordinary (String.ofList (P.trim l.toList))) :
-    loopMixArgs ["-", fr, sp] none cs (.text l :: rest) =
-      loopMixArgs [String.ofList (P.trim l.toList), fr, sp] none cs rest := by
-  cases cs with
-  | nil => rfl
-  | cons a as =>
-    obtain ⟨r, _, hr⟩ := colorFromArg_ordinary a rest (hcs a (List.mem_cons_self ..))
-    unfold loopMixArgs
-    rw [hr (.text l :: rest), hr rest]
-    cases r with
-    | error e => rfl
-    | ok c =>
-      simp only [mixBody]
-      have hdash : colorFromArg "-" (.text l :: rest) =
-          (match P.parseColor (String.ofList (P.trim l.toList)).toList with
-            | some c => (.ok c, rest)
-            | none => (.error (.colorParse (String.ofList (P.trim l.toList))), rest)) := by
-        unfold colorFromArg colorFromStdin
-        simp
-        cases P.parseColor (P.trim l.toList) <;> rfl
-      rw [hdash]
-      cases hp : P.parseColor (String.ofList (P.trim l.toList)).toList with
-      | none =>
-        rw [colorFromArg_bad _ rest hl hp]
-      | some b =>
-        rw [colorFromArg_ok _ b rest hl hp]
-        simp only []
-        cases hn : numberArg fr with
-        | error e => rfl
-        | ok f =>
-          simp only []
-          rw [loopMixArgs_cached "-" (String.ofList (P.trim l.toList)) fr sp b as rest]
+/-- **The base colour of `mix` given as `-` is the first line of stdin, whatever follows**: on a
+stdin whose first line is `l`, `mix - …` behaves exactly like `mix <l trimmed> …` on the rest of
+stdin — same lines, same error — for every list of colour arguments (ordinary ones, `-`, `pick`,
+or none at all, in which case the colours are the remaining stdin lines). This is what 940cd78 and
+60725f5 repaired: the base used to be read again for every colour, and then after the first one. -/
+theorem mix_dash_base_is_first_line (fr sp l : String) (cs : List String) (rest : List StdinLine)
+    (hl : Ordinary (String.ofList (P.trim l.toList))) :
+    run "mix" ["-", fr, sp] cs (.text l :: rest) =
+      run "mix" [String.ofList (P.trim l.toList), fr, sp] cs rest := by
+  unfold run
+  simp only [if_true]
+  unfold runMix
+  simp only []
+  have hdash : colorFromArg "-" (.text l :: rest) =
+      (match P.parseColor (String.ofList (P.trim l.toList)).toList with
+        | some c => (.ok c, rest)
+        | none => (.error (.colorParse (String.ofList (P.trim l.toList))), rest)) := by
+    unfold colorFromArg colorFromStdin
+    simp
+    cases P.parseColor (P.trim l.toList) <;> rfl
+  rw [hdash]
+  cases hp : P.parseColor (String.ofList (P.trim l.toList)).toList with
+  | none => rw [colorFromArg_bad _ rest hl hp]
+  | some b => rw [colorFromArg_ok _ b rest hl hp]
 
 end Pastel.C19
